@@ -615,7 +615,12 @@ impl<'a> Gen<'a> {
             }
         }
         let edited = self.rng.pct(if ac0.is_empty() { 12 } else { 60 });
-        let ac_edit: Option<FileSt> = if edited {
+        // ... or the list is moved out of the directory and later moved back untouched (same
+        // bytes, same modification time), with a re-load of every context in between and after
+        let aside_and_back = edited && !ac0.is_empty() && self.rng.pct(20);
+        let ac_edit: Option<FileSt> = if aside_and_back {
+            Some(FileSt::MoveAside)
+        } else if edited {
             let mut ac1 = ac0.clone();
             Some(match self.rng.weighted(&[35, 20, 15, 30]) {
                 0 if !ac1.is_empty() => {
@@ -803,7 +808,23 @@ impl<'a> Gen<'a> {
                 }
                 let mut ops = self.interleave(first);
                 ops.push(Op::Clock { dt: self.rng.range(1, 50) * 1_000_000_000 });
-                ops.push(Op::SetFile { file: FileId::Autocorrect, st, mt: Mt::Now });
+                if st == FileSt::MoveAside {
+                    // every context that exists re-loads while the list is away
+                    let mut mid: Vec<Vec<Op>> = Vec::new();
+                    for t in &second {
+                        if let (Some(Op::Finish { h }), Some(Op::Update { .. })) = (t.first(), t.get(1)) {
+                            if self.rng.pct(85) {
+                                mid.push(vec![Op::Finish { h: *h }, Op::Update { h: *h, cfg }]);
+                            }
+                        }
+                    }
+                    ops.push(Op::SetFile { file: FileId::Autocorrect, st: FileSt::MoveAside, mt: Mt::Now });
+                    ops.extend(self.interleave(mid));
+                    ops.push(Op::Clock { dt: self.rng.range(1, 50) * 1_000_000_000 });
+                    ops.push(Op::SetFile { file: FileId::Autocorrect, st: FileSt::MoveBack, mt: Mt::Now });
+                } else {
+                    ops.push(Op::SetFile { file: FileId::Autocorrect, st, mt: Mt::Now });
+                }
                 ops.extend(self.interleave(second));
                 ops
             }
